@@ -199,6 +199,71 @@ def many_worker(job):
     return st
 
 
+def loop_worker(job):
+    """-L / -follow over a tree in which a symbolic link leads back to an ancestor directory: the cycle is diagnosed (non-zero exit
+    status), and every other path - in particular the entries that come after the link in its directory - still goes through the
+    pipe to xargs -0 exactly once."""
+    import refwalk
+    import treegen
+    k, nruns, seed = job
+    st = Stats()
+    rng = common.rng_for(seed, "C07loop", k)
+    base = common.mkscratch("C07o%d" % k)
+    try:
+        for t in range(nruns):
+            sb = os.path.join(base, "t%d" % t)
+            os.makedirs(sb)
+            names = rng.sample(["-first", "a", "b", "m", "x y", "z", "~last", "é", "0", "Q"], rng.randint(4, 8))
+            nodes = [treegen.Node("tree", "d")]
+            sub = rng.choice(names)
+            for n_ in names:
+                if n_ == sub:
+                    nodes.append(treegen.Node("tree/" + n_, "d"))
+                    for m_ in rng.sample(["in1", "k", "loop", "zz", "-d"], 3):
+                        nodes.append(treegen.Node("tree/%s/%s" % (n_, m_), "f"))
+                else:
+                    nodes.append(treegen.Node("tree/" + n_, rng.choice(["f", "f", "d"])))
+            # the cycle-closing links, placed so that siblings follow them in byte order
+            for parent, target in rng.sample([("tree", "."), ("tree", "../tree"), ("tree/" + sub, ".."), ("tree/" + sub, ".")], rng.randint(1, 2)):
+                nm = rng.choice(["c", "lnk", "M", "1"])
+                if all(x.path != parent + "/" + nm for x in nodes):
+                    nodes.append(treegen.Node(parent + "/" + nm, "l", target=target))
+            treegen.build(sb, nodes)
+            flag, opt = rng.choice([(["-L"], []), ([], ["-follow"]), (["-L"], ["-follow"])])
+            ents, w = refwalk.walk_list(["tree"], "L", 0, None, False, True, sb)
+            must = [e.path.encode() for e in ents if e.path not in w.optional]
+            may = set(p_.encode() for p_ in w.optional)
+            log = os.path.join(sb, "rec.log")
+            p1 = subprocess.Popen([common.FIND] + flag + ["tree"] + opt + ["-sorted", "-print0"], cwd=sb, env=common.clean_env(), stdout=subprocess.PIPE,
+                                  stderr=subprocess.PIPE)
+            p2 = subprocess.Popen([common.XARGS, "-0", "-n", "3", common.REC, "--"], cwd=sb, env=common.clean_env({"VERIF_REC_LOG": log}),
+                                  stdin=p1.stdout, stdout=subprocess.PIPE, stderr=subprocess.PIPE)
+            p1.stdout.close()
+            rp = {"tree": [n.to_json() for n in nodes], "args": flag + ["tree"] + opt}
+            try:
+                o2, e2 = p2.communicate(timeout=120)
+                e1 = p1.stderr.read()
+                p1.wait(timeout=60)
+            except subprocess.TimeoutExpired:
+                p1.kill()
+                p2.kill()
+                st.violate("hang", None, {"root": "tree"}, rp)
+                continue
+            got = [a for _, argv in xref.read_reclog(log) for a in argv[1:]]
+            st.inc("evaluations")
+            st.inc("pipelines_over_a_link_cycle")
+            st.add("distinct", tuple(must))
+            core = [g for g in got if g not in may]
+            if core != must or len(set(got)) != len(got) or p2.returncode != 0 or p1.returncode == 0 or not e1.strip():
+                st.violate("pipe-not-exact", None, {"root": "tree", "args": flag + ["tree"] + opt, "find_exit": p1.returncode, "xargs_exit": p2.returncode,
+                                                    "find_stderr": e1[-200:], "lost": [x for x in must if x not in got][:6],
+                                                    "unexpected": [x for x in core if x not in must][:6]}, rp)
+            common.force_rmtree(sb)
+    finally:
+        common.force_rmtree(base)
+    return st
+
+
 def worker(job):
     k, ntrees, seed = job
     st = Stats()
@@ -284,8 +349,14 @@ def worker(job):
                 env2["VERIF_REC_SCRIPT"] = ",".join(statuses)
                 st.inc("pipelines_with_failing_command")
             p1 = subprocess.Popen([common.FIND] + flag + [spelling] + follow_opt + ["-sorted", "-print0"], cwd=sb, env=env, stdout=subprocess.PIPE, stderr=subprocess.PIPE)
-            nper = rng.choice([None, 1, 3])
-            xa = [common.XARGS, "-0"] + (["-n", str(nper)] if nper else []) + [common.REC, "--"]
+            nper = rng.choice([None, 1, 3, 4, 6])
+            sopt = []
+            if rng.random() < 0.3 and exp:
+                # a -s budget that fills before -n is reached (no -x): the pending command line runs and reading goes on
+                room = max(len(p_) for p_ in exp) + 1
+                sopt = ["-s", str(len(common.REC) + 1 + 3 + room * rng.choice([1, 2, 3]) + rng.randint(0, 5))]
+                st.inc("pipelines_with_a_tight_s_budget")
+            xa = [common.XARGS, "-0"] + (["-n", str(nper)] if nper else []) + sopt + [common.REC, "--"]
             p2 = subprocess.Popen(xa, cwd=sb, env=env2, stdin=p1.stdout, stdout=subprocess.PIPE, stderr=subprocess.PIPE)
             p1.stdout.close()
             try:
@@ -330,6 +401,8 @@ def run(ctx):
     ctx.pmap(worker, [(k, n // nw, ctx.seed) for k in range(nw)])
     ctx.pmap(very_long_worker, [(k, ctx.scale(1, 6), ctx.seed) for k in range(nw)])
     ctx.require("very_long_path_runs", 4)
+    ctx.pmap(loop_worker, [(k, ctx.scale(4, 120), ctx.seed) for k in range(nw)])
+    ctx.require("pipelines_over_a_link_cycle", 20)
     ctx.pmap(many_worker, [(k, ctx.scale(1, 8), ctx.seed) for k in range(nw)])
     ctx.require("pipelines_split_at_the_system_limit", 4)
     for c in ("names_with:newline", "names_with:leading-dash", "names_with:quote", "names_with:backslash", "names_with:only-blanks",
